@@ -1,4 +1,6 @@
 //@ contract nitrogql_checker::common ::fn check_arguments
+//@   requires [C03+C04+C05.args.pre_schema_wf] crate::schema_wf(definitions)
+//@   requires [C03+C04+C05.args.pre_unique_argdefs] crate::nodup(crate::argdef_names(arguments_definition@))
 //@   ensures [C03+C04+C05.args.frame] crate::extends_errs(old(result)@, final(result)@)
 //@   ensures [C03+C05.args.sound] final(result)@.len() == old(result)@.len() ==> crate::args_valid(definitions, variables, arguments, arguments_definition@)
 //@   ensures [C04+C05.args.complete] crate::args_valid(definitions, variables, arguments, arguments_definition@) ==> final(result)@.len() == old(result)@.len()
